@@ -82,8 +82,9 @@ def explore(ctx, rng, count):
     for _ in range(count):
         mon = rng.choice(["offd", "offd", "ond", "ond", "past"])
         c = M.gen_case(rng, ALLOW[mon], mon)
-        if mon != "offd" and rng.random() < 0.3:
-            # the monitor is reused: a history, reset(), then the trace; every name must read like a fresh monitor's
+        if rng.random() < 0.3:
+            # the object is reused: online a history, reset(), then the trace; offline an evaluate() of another trace first;
+            # every name must read like a fresh object's
             c["pre"] = F.gen_trace(rng, c["vars"], rng.randint(1, 6))
         if disc.known_region(ctx, c, REGIONS):
             ctx.skipped_known += 1
